@@ -684,6 +684,34 @@ def pinned_preimages(ctx: Ctx, rule: str) -> int:
     return n
 
 
+def no_module_memo(ctx: Ctx, rule: str, what: str) -> int:
+    """no function of the hashing / binding module consults a module-level mutable mapping (a memo that outlives the evaluation:
+    keyed by value it identifies equal values of different types, keyed by name it survives the redefinition of what it describes)"""
+    rep = ctx.report
+    prog = ctx.prog
+    mod = prog.module("dds.fun_args")
+    memo: List[str] = []
+    n = 0
+    for name, sts in mod.assigns.items():
+        for st in sts:
+            v = getattr(st, "value", None)
+            if isinstance(v, (ast.Dict,)) or (isinstance(v, ast.Call) and unparse(v.func).split(".")[-1] in ("dict", "OrderedDict", "defaultdict", "WeakValueDictionary", "WeakKeyDictionary")):
+                n += 1
+                for f in [g for g in prog.funcs.values() if g.module is mod]:
+                    for x in f.own_nodes():
+                        if isinstance(x, ast.Name) and x.id == name:
+                            par = f.module.parent.get(x)
+                            if isinstance(par, (ast.Subscript, ast.Compare, ast.Attribute)):
+                                memo.append(f"{f.loc(x)}: module-level mapping `{name}` is consulted in {f.qname}")
+    desc = "no module-level mutable mapping is consulted by the hashing / binding functions"
+    if memo:
+        rep.bad(rule, mod.name, desc, memo[0].split(":")[0] + ":" + memo[0].split(":")[1], sorted(set(memo))[:5] + [what], "module-memo",
+                what="a process-wide memo is consulted while binding / hashing arguments")
+    else:
+        rep.ok(rule, mod.name, desc + f" ({n} module-level mapping(s))", mod.relpath)
+    return n
+
+
 def falsy_distinct(ctx: Ctx, rule: str) -> int:
     """None and the falsy values of different types are digested from different bytes (a binding of 0 / "" / () / None is not another one)"""
     rep = ctx.report
